@@ -16,7 +16,7 @@ PTR_FLOOR = 1125
 TYPE_NAME = ["_http._tcp.local.", "_HTTP._tcp.local."]
 INST = ["one._http._tcp.local.", "ONE._http._tcp.local.", "two._http._tcp.local."]
 HOST = ["host.local.", "HOST.local.", "other.local."]
-TYPE_OF = {"PTR": 12, "SRV": 33, "TXT": 16, "A": 1, "AAAA": 28}
+TYPE_OF = {"PTR": 12, "SRV": 33, "TXT": 16, "A": 1, "AAAA": 28, "HINFO": 13, "NSEC": 47}
 TTLS = [0, 1, 2, 120, 1124, 1125, 4500]
 
 
@@ -35,6 +35,13 @@ def vocab() -> List[Tuple]:
             v.append(("A", h, a))
         for a in (b"\xfe\x80" + b"\0" * 13 + b"\x01", b"\xfe\x80" + b"\0" * 13 + b"\x02"):
             v.append(("AAAA", h, a))
+    # HINFO and NSEC: "all record types" of C06; NSEC is the one kind DNSCache.get() looks up by scanning the bucket
+    for h in HOST[:2]:
+        v.append(("HINFO", h, ("cpu", "os")))
+        v.append(("HINFO", h, ("cpu", "os2")))
+        v.append(("NSEC", h, (h, (1, 28))))
+        v.append(("NSEC", h, (h, (1,))))
+    v.append(("NSEC", INST[0], (INST[0], (16, 33))))
     return v
 
 
@@ -44,6 +51,8 @@ def identity(rec: Tuple) -> Tuple:
         rd: Tuple = (rec[2].lower(),)
     elif k == "SRV":
         rd = (rec[2], rec[3], rec[4], rec[5].lower())
+    elif k == "NSEC":
+        rd = (rec[2][0], tuple(sorted(rec[2][1])))
     else:
         rd = (rec[2],)
     return (k, rec[1].lower(), rd)
@@ -68,6 +77,10 @@ def lib_identity(r: Any) -> Tuple:
         return ("TXT", r.name.lower(), (r.text,))
     if isinstance(r, d.DNSAddress):
         return ("A" if r.type == 1 else "AAAA", r.name.lower(), (r.address,))
+    if isinstance(r, d.DNSHinfo):
+        return ("HINFO", r.name.lower(), ((r.cpu, r.os),))
+    if isinstance(r, d.DNSNsec):
+        return ("NSEC", r.name.lower(), (r.next_name, tuple(sorted(r.rdtypes))))
     return ("?", r.name.lower(), (repr(r),))
 
 
@@ -191,7 +204,7 @@ def observe_cache(cache: Any, res: Result, viol, where: str) -> Optional[Dict[Tu
         by_type: Dict[int, List] = {}
         for ident, created, ttl in base:
             by_type.setdefault(TYPE_OF.get(ident[0], 0), []).append((ident, created, ttl))
-        for type_ in (1, 12, 16, 28, 33):
+        for type_ in (1, 12, 13, 16, 28, 33, 47):
             want = sorted(by_type.get(type_, []))
             for sp in spellings[:2]:
                 ga = sorted((lib_identity(r), r.created, r.ttl) for r in cache.get_all_by_details(sp, type_, 1))
@@ -244,6 +257,10 @@ def probes_for(d: Any, ident: Tuple) -> List[Any]:
             out.append(d.DNSAddress(nm, 1, 1, 5, rd[0], created=1.0))
         elif kind == "AAAA":
             out.append(d.DNSAddress(nm, 28, 1, 5, rd[0], created=1.0))
+        elif kind == "HINFO":
+            out.append(d.DNSHinfo(nm, 13, 0x8001, 5, rd[0][0], rd[0][1], 1.0))
+        elif kind == "NSEC":
+            out.append(d.DNSNsec(nm, 47, 0x8001, 5, rd[0], list(rd[1]), 1.0))
     return out
 
 
@@ -348,6 +365,10 @@ def history_from_json(js: List[Any]) -> List[Tuple]:
                 r = list(r)
                 if r[0] in ("TXT", "A", "AAAA"):
                     r[2] = bytes.fromhex(r[2])
+                elif r[0] == "HINFO":
+                    r[2] = tuple(r[2])
+                elif r[0] == "NSEC":
+                    r[2] = (r[2][0], tuple(r[2][1]))
                 recs.append((tuple(r), ttl, flush))
             out.append(("dgram", recs))
         else:
